@@ -7,31 +7,38 @@ Local Open Scope N_scope.
 
 Definition toy_simple (l : line) : option cmd :=
   match l with
-  | 112 :: _ => Some (CProbe [[112]])
-  | 114 :: _ => Some (CRead true [118])
-  | 115 :: _ => Some CSlurp
-  | 41 :: _ => None
-  | _ => Some CNop
+  | [] => Some CNop
+  | b :: _ =>
+      if N.eqb b 112 then Some (CProbe [[112]])
+      else if N.eqb b 114 then Some (CRead true NL [118])
+      else if N.eqb b 115 then Some CSlurp
+      else if N.eqb b 41 then None
+      else Some CNop
   end.
 
 Fixpoint toy_group (ls : list line) (acc : cmd) : pres :=
   match ls with
   | [] => PNeedMore
   | [] :: _ => PError                          (* end of input inside a group *)
-  | (125 :: _) :: _ => PComplete acc
-  | l :: ls' => match toy_simple l with
-                | Some c => toy_group ls' (CSeq acc c)
-                | None => PError
-                end
+  | (b :: l) :: ls' =>
+      if N.eqb b 125 then PComplete acc false
+      else match toy_simple (b :: l) with
+           | Some c => toy_group ls' (CSeq acc c)
+           | None => PError
+           end
   end.
 
-Definition toy (st : pstate) (fed : list line) : pres :=
+Definition toy (sts : list pstate) (fed : list line) : pres :=
   match fed with
   | [] => PUnknown
   | [[]] => PEnd
-  | (123 :: _) :: rest => toy_group rest CNop
-  | [l] => match toy_simple l with Some c => PComplete c | None => PError end
-  | _ => PUnknown
+  | [] :: _ => PUnknown
+  | (b :: l) :: rest =>
+      if N.eqb b 123 then toy_group rest CNop
+      else match rest with
+           | [] => match toy_simple (b :: l) with Some c => PComplete c false | None => PError end
+           | _ => PUnknown
+           end
   end.
 
 Example toy_ends_at_eof : ends_at_eof toy.
@@ -43,22 +50,22 @@ Definition ex_script : list N :=
   [123;10; 112;10; 114;10; 125;10; 120;121;10; 115;10; 114;101;115;116].
 
 Example ex_run :
-  obs_of_final (model_run toy 30 SrcStdin (chunk [1;2;3;1;5]%nat ex_script)) =
+  obs_of_final (model_run toy 30 30 SrcStdin (chunk [1;2;3;1;5]%nat ex_script)) =
   (0, 0, 17, [Ev 0 [[112]] 0 8; Ev 2 [[114;101;115;116]] 0 13]).
 Proof. vm_compute. reflexivity. Qed.
 
 (* hypotheses of run_is_line_by_line *)
 Example ex_run_tag :
-  f_tag (model_run toy 30 SrcStdin (chunk [1;2;3;1;5]%nat ex_script)) = FEnd.
+  f_tag (model_run toy 30 30 SrcStdin (chunk [1;2;3;1;5]%nat ex_script)) = FEnd.
 Proof. vm_compute. reflexivity. Qed.
 
 (* hypotheses of consumes_minimal_lines / fd_position_after_command *)
 Example ex_parse_phase :
-  exists c d' off',
-    pull_loop byte_ops toy 10 (mkP [] false) [] SrcStdin (chunk [1;2;3]%nat ex_script) 0 false
-    = (PhDone (PComplete c), (SrcStdin, d', off', false)) /\ off' = 8 /\
+  exists c fed' d' off',
+    parse_phase byte_ops toy 10 [mkP [] false] false [] SrcStdin (chunk [1;2;3]%nat ex_script) 0 false
+    = (PhDone (PComplete c false), (fed', SrcStdin, d', off', false)) /\ off' = 8 /\
     concat d' = [120;121;10; 115;10; 114;101;115;116].
-Proof. eexists. eexists. eexists. split; [vm_compute; reflexivity | split; reflexivity]. Qed.
+Proof. eexists. eexists. eexists. eexists. split; [vm_compute; reflexivity | split; reflexivity]. Qed.
 
 (* hypotheses of earlier_lines_take_effect and
    executed_prefix_equals_truncated_script: "p\nr\nab\n" ++ ")\np\n" *)
@@ -70,8 +77,8 @@ Example ex_prefix :
   exists m r,
     iter_n byte_ops toy 2 9 (init SrcStdin (chunk [3;3]%nat (ex_A ++ ex_B))) = inl m /\
     concat (x_in (m_x m)) = ex_B /\
-    iter byte_ops toy 9 m = inr r /\ f_tag r = FSyntax /\ m_eof m = false /\
-    toy (s_ps (x_sh (m_x m))) [[]] = PEnd /\
+    iter byte_ops toy 9 m = inr r /\ f_tag r = FSyntax /\ m_eof m = false /\ m_pend m = false /\
+    toy [s_ps (x_sh (m_x m))] [[]] = PEnd /\
     x_evs (m_x m) = [Ev 0 [[112]] 0 2].
 Proof.
   split; [right; exists [112;10; 114;10; 97;98]; reflexivity|].
@@ -121,7 +128,7 @@ Fixpoint upto_nl (l : line) : line :=
   | [] => []
   | c :: l' => if N.eqb c NL then [c] else c :: upto_nl l'
   end.
-Definition toy1 (st : pstate) (fed : list line) : pres :=
+Definition toy1 (st : list pstate) (fed : list line) : pres :=
   match fed with
   | [l] => toy st [upto_nl l]
   | _ => toy st fed
@@ -132,14 +139,93 @@ Definition ex_bulk : list N := [112;112;10; 113;10].
 
 Example bulk_reader_breaks_property :
   (* delivered byte by byte the bulk reader happens to behave ... *)
-  obs_of_final (run bulk_ops toy1 20 SrcStdin (chunk [1;1;1;1]%nat ex_bulk))
-    = obs_of_final (spec_run toy1 20 LShared (split_lines ex_bulk)) /\
+  obs_of_final (run bulk_ops toy1 20 20 SrcStdin (chunk [1;1;1;1]%nat ex_bulk))
+    = obs_of_final (spec_run toy1 20 20 LShared (split_lines ex_bulk)) /\
   (* ... delivered in one piece it reads past the newline: the position when
      the first command runs is not a line boundary *)
-  obs_of_final (run bulk_ops toy1 20 SrcStdin [ex_bulk])
-    <> obs_of_final (spec_run toy1 20 LShared (split_lines ex_bulk)) /\
-  line_aligned ex_bulk (obs_of_final (run bulk_ops toy1 20 SrcStdin [ex_bulk])) = false /\
+  obs_of_final (run bulk_ops toy1 20 20 SrcStdin [ex_bulk])
+    <> obs_of_final (spec_run toy1 20 20 LShared (split_lines ex_bulk)) /\
+  line_aligned ex_bulk (obs_of_final (run bulk_ops toy1 20 20 SrcStdin [ex_bulk])) = false /\
   (* whereas the model is unaffected *)
-  obs_of_final (model_run toy1 20 SrcStdin [ex_bulk])
-    = obs_of_final (spec_run toy1 20 LShared (split_lines ex_bulk)).
+  obs_of_final (model_run toy1 20 20 SrcStdin [ex_bulk])
+    = obs_of_final (spec_run toy1 20 20 LShared (split_lines ex_bulk)).
 Proof. repeat split; vm_compute; (reflexivity || discriminate). Qed.
+
+(* hypotheses on the parser used by the theorems *)
+Lemma toy_simple_nl l c : toy_simple l = Some c -> nl_cmd c = true.
+Proof.
+  destruct l as [|b l]; cbn; [intros H; inversion H; reflexivity|].
+  destruct (N.eqb b 112); [intros H; inversion H; reflexivity|].
+  destruct (N.eqb b 114); [intros H; inversion H; reflexivity|].
+  destruct (N.eqb b 115); [intros H; inversion H; reflexivity|].
+  destruct (N.eqb b 41); intros H; inversion H; reflexivity.
+Qed.
+
+Lemma toy_group_nl ls : forall acc c p,
+  nl_cmd acc = true -> toy_group ls acc = PComplete c p -> nl_cmd c = true.
+Proof.
+  induction ls as [|l ls IH]; intros acc c p Ha H; cbn [toy_group] in H; [discriminate|].
+  destruct l as [|b l]; [discriminate|].
+  destruct (N.eqb b 125); [inversion H; subst; exact Ha|].
+  destruct (toy_simple (b :: l)) eqn:Es; [|discriminate].
+  eapply IH; [|exact H]. cbn [nl_cmd]. rewrite Ha. exact (toy_simple_nl _ _ Es).
+Qed.
+
+Example toy_reads_lines : reads_lines toy.
+Proof.
+  intros sts fed c p H. unfold toy in H.
+  destruct fed as [|l rest]; [discriminate|].
+  destruct l as [|b l].
+  - destruct rest; discriminate.
+  - destruct (N.eqb b 123).
+    + exact (toy_group_nl rest CNop c p eq_refl H).
+    + destruct rest; [|discriminate].
+      destruct (toy_simple (b :: l)) eqn:Es; [|discriminate].
+      inversion H; subst. exact (toy_simple_nl _ _ Es).
+Qed.
+
+Lemma toy_group_no_pend ls : forall acc c, toy_group ls acc <> PComplete c true.
+Proof.
+  induction ls as [|l ls IH]; intros acc c; cbn [toy_group]; [discriminate|].
+  destruct l as [|b l]; [discriminate|].
+  destruct (N.eqb b 125); [discriminate|].
+  destruct (toy_simple (b :: l)); [apply IH | discriminate].
+Qed.
+
+Example toy_pend_depth : pend_depth toy 1.
+Proof.
+  intros sts fed c H. exfalso. unfold toy in H.
+  destruct fed as [|l rest]; [discriminate|].
+  destruct l as [|b l].
+  - destruct rest; discriminate.
+  - destruct (N.eqb b 123).
+    + exact (toy_group_no_pend _ _ _ H).
+    + destruct rest; [|discriminate]. destruct (toy_simple (b :: l)); discriminate.
+Qed.
+
+(* ------------------------------------------------------------------ *)
+(* Text pending in the line buffer: the line "t" stands for a two-line alias
+   whose first line is `set -o portable` and whose second line is accepted
+   only when `portable` is off.  The second command comes out of the pending
+   buffer (nothing is read for it) and is parsed in the state the first one
+   left: a syntax error. *)
+Definition toy2 (sts : list pstate) (fed : list line) : pres :=
+  match sts, fed with
+  | [_], [[116; 10]] => PComplete (CPortable true) true
+  | [_; st2], [[116; 10]] =>
+      if p_portable st2 then PError else PComplete (CProbe [[120]]) false
+  | [_], [[]] => PEnd
+  | [_], [_ :: _] => PComplete (CProbe [[112]]) false
+  | _, _ => PUnknown
+  end.
+
+Example ex_pending :
+  obs_of_final (model_run toy2 20 20 SrcStdin (chunk [1]%nat [116;10; 112;10]))
+    = (1, 2, 2, []) /\
+  (* the same two commands when the first does not change the option *)
+  obs_of_final (model_run (fun sts fed => match toy2 sts fed with
+                                          | PComplete (CPortable _) p => PComplete CNop p
+                                          | r => r end)
+                          20 20 SrcStdin [[116;10; 112;10]])
+    = (0, 0, 4, [Ev 0 [[120]] 0 2; Ev 0 [[112]] 0 4]).
+Proof. split; vm_compute; reflexivity. Qed.
